@@ -281,7 +281,19 @@ func mkMessage(token, from string, to []string, extra int, seed uint64) []byte {
 	x := seed*2654435761 + 12345
 	for i := 0; i < extra; i++ {
 		x = x*6364136223846793005 + 1442695040888963407
-		b.WriteByte("abcdefghij klmnop\r\n."[(x>>33)%20])
+		// line ends only as CRLF pairs: what a bare CR or LF in message data means is
+		// C02's subject, and "\r" directly before a line end makes comparisons that
+		// ignore the CRLF/LF difference ambiguous
+		ch := "abcdefghij klmnop\n\n."[(x>>33)%20]
+		if ch == '\n' {
+			if i+1 >= extra {
+				ch = 'q'
+			} else {
+				b.WriteByte('\r')
+				i++
+			}
+		}
+		b.WriteByte(ch)
 	}
 	return b.Bytes()
 }
